@@ -32,10 +32,6 @@ export { generateHashFromString, generateHashFromNumbers } from "./hash.js";
 const JSON_PROTO = Object.getPrototypeOf({});
 
 function deepmergeConstructor(options: any) {
-  function isNotPrototypeKey(value: any) {
-    return value !== "constructor" && value !== "prototype" && value !== "__proto__";
-  }
-
   function cloneArray(value: any) {
     let i = 0;
     const il = value.length;
@@ -47,7 +43,7 @@ function deepmergeConstructor(options: any) {
   }
 
   function cloneObject(target: any) {
-    const result = {};
+    const result: Record<string, unknown> = {};
 
     if (cloneProtoObject && Object.getPrototypeOf(target) !== JSON_PROTO) {
       return cloneProtoObject(target);
@@ -56,8 +52,10 @@ function deepmergeConstructor(options: any) {
     const targetKeys = getKeys(target);
     let i, il, key;
     for (i = 0, il = targetKeys.length; i < il; ++i) {
-      //@ts-ignore
-      isNotPrototypeKey((key = targetKeys[i])) && (result[key] = clone(target[key]));
+      // every own key is a declared part of what was parsed: `constructor`, `prototype` and `__proto__` included.
+      // Own properties are defined, never assigned through a setter, so nothing can reach a prototype.
+      key = targetKeys[i];
+      setOwnProperty(result, key, clone(target[key]));
     }
     return result;
   }
@@ -141,39 +139,32 @@ function deepmergeConstructor(options: any) {
   }
 
   function mergeObject(target: any, source: any) {
-    const result = {};
+    const result: Record<string, unknown> = {};
     const targetKeys = getKeys(target);
     const sourceKeys = getKeys(source);
     let i, il, key;
     for (i = 0, il = targetKeys.length; i < il; ++i) {
-      isNotPrototypeKey((key = targetKeys[i])) &&
-        sourceKeys.indexOf(key) === -1 &&
-        // @ts-ignore
-        (result[key] = clone(target[key]));
+      key = targetKeys[i];
+      if (sourceKeys.indexOf(key) === -1) {
+        setOwnProperty(result, key, clone(target[key]));
+      }
     }
 
     for (i = 0, il = sourceKeys.length; i < il; ++i) {
-      if (!isNotPrototypeKey((key = sourceKeys[i]))) {
-        continue;
-      }
-
-      if (key in target) {
-        if (targetKeys.indexOf(key) !== -1) {
-          if (
-            cloneProtoObject &&
-            isMergeableObject(source[key]) &&
-            Object.getPrototypeOf(source[key]) !== JSON_PROTO
-          ) {
-            // @ts-ignore
-            result[key] = cloneProtoObject(source[key]);
-          } else {
-            // @ts-ignore
-            result[key] = _deepmerge(target[key], source[key]);
-          }
+      key = sourceKeys[i];
+      // own keys only: what Object.prototype has under this name (`toString`, `constructor`..) is not a key of target
+      if (targetKeys.indexOf(key) !== -1) {
+        if (
+          cloneProtoObject &&
+          isMergeableObject(source[key]) &&
+          Object.getPrototypeOf(source[key]) !== JSON_PROTO
+        ) {
+          setOwnProperty(result, key, cloneProtoObject(source[key]));
+        } else {
+          setOwnProperty(result, key, _deepmerge(target[key], source[key]));
         }
       } else {
-        // @ts-ignore
-        result[key] = clone(source[key]);
+        setOwnProperty(result, key, clone(source[key]));
       }
     }
     return result;
